@@ -500,6 +500,7 @@ pub fn strategy() -> BoxedStrategy<Case> {
                 ops,
                 tail_ms: 1500,
                 forced_wakes: false,
+                resolve_hosts: vec![],
             }
         })
         .boxed()
